@@ -87,6 +87,17 @@ async fn is_served(address: SocketAddr, head: &[u8]) -> bool {
     matches!(tokio::time::timeout(Duration::from_secs(5), exchange).await, Ok(Some(_)))
 }
 
+/// the same exchange from outside: its own OS thread and runtime, wall-clock deadline. A server whose workers are blocked (not
+/// merely awaiting) cannot slow down this clock.
+fn served_within(address: SocketAddr, head: Vec<u8>, within: Duration) -> bool {
+    let (tx, rx) = std::sync::mpsc::channel();
+    std::thread::spawn(move || {
+        let rt = tokio::runtime::Builder::new_current_thread().enable_all().build().expect("probe rt");
+        let _ = tx.send(rt.block_on(is_served(address, &head)));
+    });
+    matches!(rx.recv_timeout(within), Ok(true))
+}
+
 async fn run_sequence(name: &str, proxy: bool, seq: &[Conn]) -> usize {
     let port = std::net::TcpListener::bind("127.0.0.1:0").expect("bind").local_addr().unwrap().port();
     let address = SocketAddr::from(([127, 0, 0, 1], port));
@@ -316,11 +327,11 @@ pub fn stall(_seed: u64) -> usize {
             let staller = TcpStream::connect(address).await.ok();
             tokio::time::sleep(Duration::from_millis(100)).await;
             let head = if proxy { header(&Conn::V1("203.0.113.7:50000")) } else { vec![] };
-            let served = tokio::time::timeout(Duration::from_secs(2), is_served(address, &head)).await;
+            let served = served_within(address, head.clone(), Duration::from_secs(2));
             drop(staller);
             stop.cancel();
             let _ = tokio::time::timeout(Duration::from_secs(3), server).await;
-            !matches!(served, Ok(true))
+            !served
         });
         if delayed {
             println!(
@@ -367,11 +378,11 @@ pub fn stall(_seed: u64) -> usize {
             }
         }
         tokio::time::sleep(Duration::from_millis(300)).await;
-        let served = tokio::time::timeout(Duration::from_secs(2), is_served(address, &[])).await;
+        let served = served_within(address, vec![], Duration::from_secs(2));
         drop(silent);
         stop.cancel();
         let _ = tokio::time::timeout(Duration::from_secs(3), server).await;
-        !matches!(served, Ok(true))
+        !served
     });
     if delayed {
         println!("REPRODUCED stall (400 silent clients, proxy protocol off): a well-behaved client that connected after them was not served within 2 s");
